@@ -305,3 +305,16 @@ PROPS["C15"] = {
         ],
     },
 }
+
+def PG(slice_):
+    return {"name": "pg_" + slice_, "cases": "pgconfig", "spec": "PgConfig.tla", "invariants": ["Total"],
+            "constants": {"Slice": slice_}, "binary": "xh"}
+
+
+PROPS["C18"] = {
+    "kind": "cases", "xh": True, "invariants": ["Total"], "actprops": [], "preds": [],
+    "configs": {
+        "quick": [PG("identity"), PG("lists"), PG("scalars"), PG("pool")],
+        "thorough": [PG("identity"), PG("lists"), PG("scalars_full"), PG("pool")],
+    },
+}
